@@ -272,3 +272,31 @@ CONTRACTS.update({
         ensures=[("inverse", "feq(result, a)")],
         properties=["C09"], battery="value_pairs_pos"),
 })
+
+
+# ------------------------------------------------------------------ C11
+def c11_up_then_down(n, sh):
+    n.transpose(sh)
+    n.transpose(sh, False)
+    return n
+
+
+CONTRACTS.update({
+    L + "c11_up_then_down": dict(
+        params={"n": "Note", "sh": "str"},
+        requires=[("name-up-to-double-accidentals", "canon(n.name) and abs(net(n.name)) <= 2"),
+                  ("shorthand-up-to-two-accidentals",
+                   "is_interval_shorthand(sh) and len(sh) <= 3 and "
+                   "(cnt_sharp(sh, 0, len(sh) - 1) == 0 or cnt_flat(sh, 0, len(sh) - 1) == 0)"),
+                  ("size-0-to-11", "0 <= maj_semis(digit(sh[len(sh) - 1])) + sh_acc(sh) and "
+                                   "maj_semis(digit(sh[len(sh) - 1])) + sh_acc(sh) <= 11")],
+        returns="Note", old={"old_name": "n.name", "old_octave": "n.octave"},
+        ensures=[("name-restored", "shape(n.name, old_name[0], net(old_name))"),
+                 ("octave-restored", "n.octave == old_octave")],
+        modifies=["param:n"],
+        inline_callees=["mingus.containers.note.Note.transpose"],
+        notes="Note.transpose is executed in place here (its own contract covers names up to 4 accidentals, the "
+              "intermediate note of an up-then-down trip can carry 5)",
+        split=[{"assume": "sh[len(sh) - 1] == %r" % d} for d in "1234567"],
+        properties=["C11"], battery="note_shorthand"),
+})
